@@ -15,7 +15,7 @@
    AXIOM_ALLOW), nothing else. *)
 From Coq Require Import ZArith Reals Floats.SpecFloat Bool Lia Lra String Ascii.
 From Flocq Require Import Core.Core IEEE754.BinarySingleNaN Round_odd Mult_error.
-Require Import Blots.Num Blots.NumText Blots.proofs.NumTextFloat Blots.proofs.NumTextRef.
+Require Import Blots.Num Blots.Outcome Blots.Ast Blots.NumText Blots.proofs.NumTextFloat Blots.proofs.NumTextRef.
 Open Scope Z_scope.
 
 Local Existing Instance Hprec.
@@ -448,3 +448,94 @@ Proof.
   generalize (radix_fold_inv radix bits Hrb (String c r) 0 0 false 0 0 Hinv0).
   rewrite Hn. change (pow2num 0) with n_one. intros ->. reflexivity.
 Qed.
+
+(* ---------------------------------------------------------------- literal_value of the repaired tree *)
+Lemma radix_literal_fixed_unsigned : forall mark radix body,
+  strip_prefix ("-" ++ mark) (mark ++ body) = None ->
+  strip_prefix ("+" ++ mark) (mark ++ body) = None ->
+  drop 2 (mark ++ body) = body ->
+  radix_literal_fixed (mark ++ body) mark radix
+  = match parse_radix_digits (remove_char "_" body) radix with
+    | None => None
+    | Some parsed => Some (nmul n_one parsed)
+    end.
+Proof. intros mark radix body H1 H2 H3. unfold radix_literal_fixed. now rewrite H1, H2, H3. Qed.
+
+Lemma literal_value_rf_hex : forall sp body,
+  literal_value_rf true sp ("0x" ++ body)
+  = match parse_radix_digits (remove_char "_" body) 16 with
+    | None => None
+    | Some parsed => Some (nmul n_one parsed)
+    end.
+Proof.
+  intros sp body. unfold literal_value_rf.
+  change (starts_with "0b" ("0x" ++ body)) with false.
+  change (starts_with "-0b" ("0x" ++ body)) with false.
+  change (starts_with "+0b" ("0x" ++ body)) with false.
+  change (starts_with "0x" ("0x" ++ body)) with true. cbn [orb].
+  apply radix_literal_fixed_unsigned; reflexivity.
+Qed.
+Lemma literal_value_rf_bin : forall sp body,
+  literal_value_rf true sp ("0b" ++ body)
+  = match parse_radix_digits (remove_char "_" body) 2 with
+    | None => None
+    | Some parsed => Some (nmul n_one parsed)
+    end.
+Proof.
+  intros sp body. unfold literal_value_rf.
+  change (starts_with "0b" ("0b" ++ body)) with true. cbn [orb].
+  apply radix_literal_fixed_unsigned; reflexivity.
+Qed.
+
+(* 0x literals after the repair: `_` erased, EVERY digit string denotes the nearest double of its
+   integer value (num_of_Z = SpecFloat.binary_normalize: round to nearest even, +inf from
+   2^1024 - 2^970 on) *)
+Theorem hex_literal_value_fixed : forall sp body c cl v,
+  remove_char "_" body = String c cl ->
+  radix_val 16 (String c cl) 0 = Some v ->
+  literal_value_rf true sp ("0x" ++ body) = Some (num_of_Z v).
+Proof.
+  intros sp body c cl v Hcl Hv. rewrite literal_value_rf_hex, Hcl.
+  rewrite (parse_radix_digits_correct 16 (String c cl) v (or_intror eq_refl) ltac:(discriminate) Hv).
+  now rewrite (nmul_one_l _ (num_of_Z_valid v)).
+Qed.
+Theorem bin_literal_value_fixed : forall sp body c cl v,
+  remove_char "_" body = String c cl ->
+  radix_val 2 (String c cl) 0 = Some v ->
+  literal_value_rf true sp ("0b" ++ body) = Some (num_of_Z v).
+Proof.
+  intros sp body c cl v Hcl Hv. rewrite literal_value_rf_bin, Hcl.
+  rewrite (parse_radix_digits_correct 2 (String c cl) v (or_introl eq_refl) ltac:(discriminate) Hv).
+  now rewrite (nmul_one_l _ (num_of_Z_valid v)).
+Qed.
+
+(* the existing errors are kept: no digit, or a character that is not a digit of the radix *)
+Theorem radix_literal_fixed_rejects : forall sp body,
+  (remove_char "_" body = EmptyString \/ radix_val 16 (remove_char "_" body) 0 = None ->
+   literal_value_rf true sp ("0x" ++ body) = None) /\
+  (remove_char "_" body = EmptyString \/ radix_val 2 (remove_char "_" body) 0 = None ->
+   literal_value_rf true sp ("0b" ++ body) = None).
+Proof.
+  intros sp body. split; intros H.
+  - rewrite literal_value_rf_hex. now rewrite (parse_radix_digits_rejects 16 _ (or_intror eq_refl) H).
+  - rewrite literal_value_rf_bin. now rewrite (parse_radix_digits_rejects 2 _ (or_introl eq_refl) H).
+Qed.
+
+(* the pinned behaviour is the radixfix = false instance, and the repair changes nothing below 2^63:
+   wherever the pinned tree accepts an unsigned 0x / 0b literal, the repaired tree gives the same double *)
+Lemma literal_value_rf_false : forall sp t, literal_value_rf false sp t = literal_value sp t.
+Proof. reflexivity. Qed.
+Lemma parse_numexpr_rf_false : forall sp s, parse_numexpr_rf false sp s = parse_numexpr sp s.
+Proof. reflexivity. Qed.
+Lemma read_source_rf_false : forall sp s, read_source_rf false sp s = read_source sp s.
+Proof. reflexivity. Qed.
+
+(* the witnesses of F25 on the repaired model *)
+Lemma radix_literal_ge_2p63_fixed :
+  forall sp, parse_numexpr_rf true sp "0xFFFFFFFFFFFFFFFF" = PExpr (ENum (num_of_Z (2 ^ 64)))
+          /\ parse_numexpr_rf true sp "0x8000000000000000" = PExpr (ENum (num_of_Z (2 ^ 63)))
+          /\ parse_numexpr_rf true sp "0b1000000000000000000000000000000000000000000000000000000000000000"
+             = PExpr (ENum (num_of_Z (2 ^ 63)))
+          /\ parse_numexpr_rf true sp "0x20000000000000000000000000000000000000000000000001"
+             = PExpr (ENum (num_of_Z (2 ^ 197))).
+Proof. intros sp. repeat split; vm_compute; reflexivity. Qed.
